@@ -120,12 +120,14 @@ def gen(data: bytes):
     if tp.chance(90):
         cls = tp.pick(["CRG", "SCRG", "SCRG"])
         m = S.gen_model(tp, cls, nmax=9, nmin=1, attrs=True, p_role=110)
-        return {"mode": "reverse", "x": S.shuffled_recipe(tp, m)}
+        return {"mode": "reverse", "x": S.shuffled_recipe(tp, m),
+                "warm": tp.pick([0, 0, 1, 2, 3])}
     r, p, ts = gen_triple(tp)
     cls = tp.pick(["CRG", "SCRG", "SCRG"])
     return {"mode": "from_graphs", "cls": cls,
             "r": S.shuffled_recipe(tp, r), "p": S.shuffled_recipe(tp, p),
-            "ts": None if ts is None else S.shuffled_recipe(tp, ts)}
+            "ts": None if ts is None else S.shuffled_recipe(tp, ts),
+            "warm": tp.pick([0, 0, 1, 2, 3])}
 
 
 def shrink(case):
@@ -201,6 +203,9 @@ def check_from_graphs(ctx, case):
             for x in (r, p, t)]
     with guard(f"C08/{cls}/from_graphs"):
         rg = C[cls].from_graphs(r, p, t)
+    from vp import ops as O
+    with guard(f"C08/{cls}/read-only-use-before"):
+        O.pre_use(rg, case.get("warm", 0))   # hashing / comparing / looking
     sg = snapshot(rg, f"C08/{cls}/from_graphs")
     for x, s0, nm in zip((r, p, t), s_in, ("reactant", "product", "ts")):
         if x is not None and snap_diff(snapshot(x, "C08/input"), s0, "exact"):
@@ -245,6 +250,9 @@ def check_reverse(ctx, case):
         raise HarnessError("reverse: reaction classes only")
     x = rc.build(case["x"])
     s0 = snapshot(x, f"C08/{cls}/reverse/source")
+    from vp import ops as O
+    with guard(f"C08/{cls}/read-only-use-before"):
+        O.pre_use(x, case.get("warm", 0))
     with guard(f"C08/{cls}/reverse_reaction"):
         rev = x.reverse_reaction()
     if rev is x:
